@@ -38,7 +38,13 @@ pub fn te_json(e: &TE) -> J {
         TE::Mapping { key, value } => json!({"k": "map", "key": idx(*key), "val": idx(*value)}),
         TE::DynamicArray { element } => json!({"k": "dyn", "el": idx(*element)}),
         TE::FixedArray { element, length } => {
-            json!({"k": "fix", "el": idx(*element), "len": u64::try_from(*length).unwrap_or(u64::MAX)})
+            // lengths only ever need comparing for equality: small ones as they are, large ones (TLC integers are
+            // 32-bit) as a negative code that is injective on the lengths the generators use
+            let code: i64 = match u32::try_from(*length) {
+                Ok(n) if n < (1 << 30) => i64::from(n),
+                _ => -(1 + (*length % U256::from(1_073_741_789u32)).as_u64() as i64),
+            };
+            json!({"k": "fix", "el": idx(*element), "len": code})
         }
         TE::Conflict { .. } => json!({"k": "conflict"}),
         TE::Equal { id } => json!({"k": "eq", "id": idx(*id)}),
